@@ -1694,7 +1694,9 @@ func (p *parser) hoistSymbols(scope *js_ast.Scope) {
 						// Silently merge this symbol into the existing symbol, which must keep
 						// its name too if this one was hoisted past a "with" statement
 						if symbol.Flags.Has(ast.MustNotBeRenamed) {
-							existingSymbol.Flags |= ast.MustNotBeRenamed
+							for target := existingMember.Ref; target != ast.InvalidRef; target = p.symbols[target.InnerIndex].Link {
+								p.symbols[target.InnerIndex].Flags |= ast.MustNotBeRenamed
+							}
 						}
 						symbol.Link = existingMember.Ref
 						s.Members[symbol.OriginalName] = existingMember
@@ -8794,7 +8796,10 @@ func (p *parser) findSymbol(loc logger.Loc, name string) findSymbolResult {
 	// property on the target object of the "with" statement. We must not rename
 	// it or we risk changing the behavior of the code.
 	if isInsideWithScope {
-		p.symbols[ref.InnerIndex].Flags |= ast.MustNotBeRenamed
+		// Also flag what this symbol has been merged into (e.g. a hoisted "var")
+		for target := ref; target != ast.InvalidRef; target = p.symbols[target.InnerIndex].Link {
+			p.symbols[target.InnerIndex].Flags |= ast.MustNotBeRenamed
+		}
 	}
 
 	// Track how many times we've referenced this symbol
